@@ -29,8 +29,9 @@ when the transferred word has COM (0xBC, ctrl=1) in symbol 0 or when `clear` is 
 leaving the descrambler must be exactly the words that entered the scrambler (minus the discarded ones).
 
 Not judged: data symbols while `enable` is low (pass-through is documented but not part of the statement; control
-symbols and word order are still judged); `clear` together with a valid word; COM-led words offered while `hold`
-is high (never generated); which idle words the transmit CTC replaces and how often (C33); the start-up cycles
+symbols and word order are still judged); the data symbols of a word taken in the very cycle `clear` is strobed
+(all later words are judged from the restart); COM-led words offered while `hold` is high (never generated: the
+statement does not decide whether a discarded COM restarts the sequence); which idle words the transmit CTC replaces and how often (C33); the start-up cycles
 of the physical layer before the first COM-led word (the LFSRs of both directions are not yet synchronised).
 """
 from rv.sim import Bench
@@ -45,14 +46,19 @@ REQUIRED_BINS = ["mode_lfsr", "mode_scr", "mode_loop", "mode_layer", "layer_skp_
                  "com_sym0_then_data_word", "com_sym0_with_data_symbols", "com_only_in_sym1_3", "data_bc_in_sym0",
                  "four_com_word", "mixed_word", "all_ctrl_word", "zero_data_word",
                  "stall_on_data_word", "stall_on_com_word", "stall_on_word_after_com", "valid_gap", "hold_with_transfer",
-                 "hold_while_stalled", "run_ge_64_words_without_restart", "clear_strobe", "enable_low_phase",
+                 "hold_while_stalled", "run_ge_64_words_without_restart", "clear_strobe", "clear_with_valid_word", "enable_low_phase",
+                 "lfsr_default_iv",
                  "lfsr_clear_with_advance", "lfsr_advance_gap", "lfsr_run_ge_100",
                  "loop_insert", "loop_pause", "loop_backpressure", "iv_ffff", "iv_other"]
 REQUIRED_EVENTS = ["lfsr_values_compared", "words_compared", "data_symbols_compared", "ctrl_symbols_compared",
                    "restarts_by_com", "loop_words_compared", "sink_transfers", "source_transfers", "layer_words_compared",
                    "layer_idle_words_replaced"]
 ASSUMPTIONS = ["hold is a per-cycle side-band sampled in the cycle in which the word is taken from the sink",
-               "clear is only strobed in cycles without a valid sink word",
+               "clear restarts the keystream for every word taken in a later cycle; the data symbols of a word taken in the clear cycle itself are not judged",
+               "a COM-led word offered while hold is high is not generated: the statement does not decide it (the physical layer discards the held word, "
+               "so the receiver never sees that COM; restarting and not restarting are both defensible)",
+               "Scrambler's constructor default initial_value is neither documented nor a specification value and is not relied on; "
+               "ScramblerLFSR() and Descrambler() defaults are judged against the specification reset value 0xFFFF",
                "data symbols are not judged while enable is low",
                "the reference keystream is the bit-serial LFSR of USB 3.2 appendix B (self-test: TSEQ symbols)"]
 
@@ -222,9 +228,15 @@ def word_bins(res, data, ctrl, kind):
 # ---------------------------------------------------------------------------------------------- lfsr harness
 def run_lfsr(rng, tier, res):
     from luna.gateware.usb.usb3.physical.scrambling import ScramblerLFSR
-    iv = rng.choice([0xFFFF, 0xFFFF, 0x7DBD, 0x0001, 0x8000, rng.randrange(1, 1 << 16)])
+    iv = rng.choice([None, 0xFFFF, 0x7DBD, 0x0001, 0x8000, rng.randrange(1, 1 << 16)])
     ncyc = rng.randint(400, 1200)
-    dut = ScramblerLFSR(initial_value=iv)
+    if iv is None:
+        # constructor default: documented as "all 1's, per the USB3 spec" (the reset value of appendix B)
+        dut = ScramblerLFSR()
+        iv = 0xFFFF
+        res.bin("lfsr_default_iv")
+    else:
+        dut = ScramblerLFSR(initial_value=iv)
     b = Bench(dut, domain="ss", freq=125e6, max_cycles=ncyc + 10)
     b.watch(dut.clear, dut.advance, dut.value)
     res.desc = {"mode": "lfsr", "iv": iv, "cycles": ncyc}
@@ -306,7 +318,7 @@ def run_stream(rng, tier, res, mode):
     ready_profile = rng.choice(READY_PROFILES)
     p_valid = rng.choice([1.0, 1.0, 0.9, 0.6, 0.3])
     p_hold = rng.choice([0.0, 0.02, 0.02, 0.08])
-    p_clear = rng.choice([0.0, 0.0, 0.01])
+    p_clear = rng.choice([0.0, 0.01, 0.02])
     directed_stalls = rng.random() < 0.7
     enable_phases = rng.random() < 0.25
 
@@ -383,6 +395,8 @@ def run_stream(rng, tier, res, mode):
                 b.set(sink.valid, 1)
                 b.set(sink.payload, pending[0])
                 b.set(sink.ctrl, pending[1])
+                if clear_sig is not None and rng.random() < p_clear * 0.7:
+                    clear = 1                      # clear while a word is offered / taken
             else:
                 b.set(sink.valid, 0)
                 # garbage on an invalid payload, often a COM
@@ -456,7 +470,7 @@ def run_stream(rng, tier, res, mode):
             kind_com = is_com0(sd, sc)
             exp = ref.scramble(sd, sc, enable)
             exp_if_restarted = RefScrambler(ref.iv).scramble(sd, sc, enable)
-            entry = {"in": sd, "ctrl": sc, "exp": exp, "enable": enable, "stall": st["stall"], "com": kind_com,
+            entry = {"clear": clear, "in": sd, "ctrl": sc, "exp": exp, "enable": enable, "stall": st["stall"], "com": kind_com,
                      "exp_restarted": exp_if_restarted, "after_restart": st["after_com"], "hold": hold, "cyc": b.cycle,
                      "pos": ref.words_since_restart}
             expected_mid.append(entry)
@@ -488,7 +502,7 @@ def run_stream(rng, tier, res, mode):
         if clear:
             res.bin("clear_strobe")
             if sv:
-                res.unjudged += 1
+                res.bin("clear_with_valid_word")
             ref.clear()
             st["after_com"] = False
 
@@ -536,7 +550,9 @@ def run_stream(rng, tier, res, mode):
             if (e["ctrl"] >> i) & 1 and (md >> (8 * i)) & 0xFF != (e["in"] >> (8 * i)) & 0xFF:
                 res.violation("ctrl_symbol_altered", ctx + " symbol=%d" % i)
                 return
-        if not e["enable"]:
+        if not e["enable"] or e["clear"]:
+            # enable low: pass-through is not part of the statement.  clear in the very cycle of the transfer: whether
+            # that word already uses the restarted sequence is not decided; every later word is judged from the restart
             res.unjudged += 1
             return
         res.event("data_symbols_compared", 4 - nctrl)
